@@ -9,8 +9,16 @@ every list of parameters of any length in **any declaration order**, every acycl
 graph (expression parameters may reference expression parameters), every interpretation `F` of
 the function symbols and every initial value (NaN included).  Success hypotheses
 `… = .ok ps'` say that no evaluation raised.
+
+Further down: what the bounded loop does on *any* graph, cycles included (`update_terminates`,
+`cyclic_not_consistent_counterexample`); which values a raising expression leaves behind
+(`failed_update_state`, D26); and the `$label` rewriting of `set_transformed_expression`
+(`rewrite_spec`, `rewrite_no_prefix_capture`, `labels_of_rewrite`, … over the constants regenerated
+from the source).
 -/
 import GlotaranProofs.Lemmas.C12
+import GlotaranProofs.Lemmas.C12Regex
+import GlotaranProofs.Lemmas.C12Fail
 namespace Glotaran.C12
 
 /-- **After an update every expression parameter has the value of its expression on the
@@ -319,5 +327,349 @@ example : (update F0
       { label := "b", value := some 2, expr := some (.add (.ref "a") (.lit 1)) } ]).toOption = some
     [ { label := "a", value := some 5, expr := some (.add (.ref "b") (.lit 1)) },
       { label := "b", value := some 6, expr := some (.add (.ref "a") (.lit 1)) } ] := by decide +kernel
+
+/-! ## any dependency graph: what the bounded loop amounts to (cycles included) -/
+
+/-- **`update_terminates`** — no assumption on the dependency graph: the loop of
+    `update_parameter_expression` makes `k` passes for some `k` that is at most the number of
+    expression parameters, the resulting values are those of exactly these `k` passes in
+    declaration order, and the loop stopped before the bound only on a consistent state. -/
+theorem update_terminates (F : Funs) (ps ps' : List Param) (hwf : WF ps) (h : update F ps = .ok ps') :
+    ∃ k, k ≤ exprCount ps ∧ passes F k ps = .ok ps' ∧ (Consistent F ps' ∨ k = exprCount ps) :=
+  loop_passes F (exprCount ps) ps ps' hwf h
+
+/-- `a = $b + 1`, `b = $a + 1` with a = 1, b = 2 -/
+def cyc2 : List Param :=
+  [ { label := "a", value := some 1, expr := some (.add (.ref "b") (.lit 1)), vary := false },
+    { label := "b", value := some 2, expr := some (.add (.ref "a") (.lit 1)), vary := false } ]
+
+/-- what two passes make of it: a = 5, b = 6 -/
+def cyc2done : List Param :=
+  [ { label := "a", value := some 5, expr := some (.add (.ref "b") (.lit 1)), vary := false },
+    { label := "b", value := some 6, expr := some (.add (.ref "a") (.lit 1)), vary := false } ]
+
+example : ∃ k, k ≤ exprCount cyc2 ∧ passes F0 k cyc2 = .ok cyc2done ∧ (Consistent F0 cyc2done ∨ k = exprCount cyc2) :=
+  update_terminates F0 cyc2 cyc2done (by unfold WF labels; decide) (by decide +kernel)
+
+/-- **`cyclic_not_consistent_counterexample`** — `consistent_after_update` and `update_idempotent`
+    need the acyclicity hypothesis: on the 2-cycle `a = $b + 1`, `b = $a + 1` the loop ends after
+    two passes (the bound) with a = 5, b = 6, which is not consistent, and a second update changes
+    the values again (a = 9, b = 10).  The harness replays this witness on the real code. -/
+theorem cyclic_not_consistent_counterexample :
+    WF cyc2 ∧ ¬ Acyclic cyc2 ∧ update F0 cyc2 = .ok cyc2done ∧ passes F0 2 cyc2 = .ok cyc2done ∧
+    ¬ Consistent F0 cyc2done ∧ update F0 cyc2done ≠ .ok cyc2done := by
+  refine ⟨by unfold WF labels; decide, ?_, by decide +kernel, by decide +kernel, ?_, by decide +kernel⟩
+  · rintro ⟨order, _, _, h3⟩
+    have hb : IsExprLabel cyc2 "b" := ⟨_, List.mem_cons_of_mem _ List.mem_cons_self, rfl, rfl⟩
+    have ha : IsExprLabel cyc2 "a" := ⟨_, List.mem_cons_self, rfl, rfl⟩
+    have h1 := h3 _ List.mem_cons_self _ rfl "b" (by simp [Expr.refs]) hb
+    have h2 := h3 _ (List.mem_cons_of_mem _ List.mem_cons_self) _ rfl "a" (by simp [Expr.refs]) ha
+    simp only at h1 h2
+    omega
+  · intro hc
+    have := hc _ List.mem_cons_self _ rfl
+    revert this
+    decide +kernel
+
+/-! ## a raising expression: which values are left (D26) -/
+
+/-- **`failed_update_state`** — when `update_parameter_expression` raises, the object is left in
+    the state reached so far: `k` complete passes were made (`k` below the bound), and in pass
+    `k + 1` the expression of the parameter `p` raised; the state left behind is the state `mid`
+    after the `k` passes in which exactly the expression parameters *declared before `p`* have been
+    re-evaluated and stored as in a complete pass (`passAux … pre`), while `p` itself and every
+    parameter declared after it are literally untouched — the expression parameters among them
+    still hold the values of pass `k`. -/
+theorem failed_update_state (F : Funs) (ps : List Param) (e : Err) (left : List Param) (hwf : WF ps)
+    (h : update F ps = .error (e, left)) :
+    ∃ k mid pre p post ex why ch pre',
+      k < exprCount ps ∧ passes F k ps = .ok mid ∧ mid = pre ++ p :: post ∧
+      p.expr = some ex ∧ e = .expr p.label why ∧
+      passAux F pre mid false = .ok (left, ch) ∧ eval F left ex = .error why ∧
+      left = pre' ++ p :: post ∧ pre'.map skel = pre.map skel := by
+  obtain ⟨k, mid, hk, hpass, herr⟩ := loop_error F _ ps e left h
+  obtain ⟨pre, p, post, ex, why, ch, h1, h2, h3, h4, h5⟩ := passAux_error_split F mid mid false e left herr
+  have hwm : WF mid := same_wf (passes_same F k ps mid hpass).1 hwf
+  have hdis : ∀ q ∈ pre, q.label ∉ labels (p :: post) := by
+    intro q hq hmem
+    have hnd : (labels pre ++ labels (p :: post)).Nodup := by
+      have : labels mid = labels pre ++ labels (p :: post) := by rw [h1]; simp [labels]
+      rw [← this]; exact hwm
+    exact (List.nodup_append.mp hnd).2.2 q.label (List.mem_map.mpr ⟨q, hq, rfl⟩) q.label hmem rfl
+  have h3' := h3
+  rw [h1] at h3'
+  obtain ⟨pre', hl, hsk⟩ := passAux_tail F pre pre (p :: post) false left ch hdis (by rw [← h1] at h3' ⊢; exact h3)
+  exact ⟨k, mid, pre, p, post, ex, why, ch, pre', hk, hpass, h1, h2, h5, h3, h4, hl, hsk⟩
+
+/-- D26: `a = 2 + 1/$b` declared before `b = $c - 1`; consistent for c = 2 (a = 3, b = 1), then c := 1 -/
+def d26 : List Param :=
+  [ { label := "a", value := some 3, expr := some (.add (.lit 2) (.div (.lit 1) (.ref "b"))), vary := false },
+    { label := "b", value := some 1, expr := some (.sub (.ref "c") (.lit 1)), vary := false },
+    { label := "c", value := some 1 } ]
+
+/-- the first pass stores a = 3 (from the stale b = 1) and b = 0, the second raises at `a`:
+    a keeps 3, b = 0 stays behind -/
+def d26left : List Param :=
+  [ { label := "a", value := some 3, expr := some (.add (.lit 2) (.div (.lit 1) (.ref "b"))), vary := false },
+    { label := "b", value := some 0, expr := some (.sub (.ref "c") (.lit 1)), vary := false },
+    { label := "c", value := some 1 } ]
+
+example : WF d26 ∧ update F0 d26 = .error (.expr "a" .divZero, d26left) ∧ passes F0 1 d26 = .ok d26left :=
+  ⟨by unfold WF labels; decide, by decide +kernel, by decide +kernel⟩
+
+/-- **what is left is stale** — the state a raising update leaves behind is in general not
+    consistent, and it matters: from it, the values c = 2 (for which every expression is defined:
+    a fresh object gives a = 3, b = 1) raise as well, because the first pass evaluates `a` with the
+    b = 0 left behind.  (This is D26, recorded under C10.) -/
+theorem failed_update_leaves_stale_counterexample :
+    update F0 d26 = .error (.expr "a" .divZero, d26left) ∧ ¬ Consistent F0 d26left ∧
+    setFromArrays F0 d26left ["c"] [some 2] = .error (.expr "a" .divZero, setValue d26left "c" (some 2)) ∧
+    setFromArrays F0 d26 ["c"] [some 2] = .ok (setValue d26 "c" (some 2)) := by
+  refine ⟨by decide +kernel, ?_, by decide +kernel, by decide +kernel⟩
+  intro hc
+  have := hc _ List.mem_cons_self _ rfl
+  revert this
+  decide +kernel
+
+section Rewriting
+open Generated
+/-! ## the `$label` rewriting (`PARAMETER_EXPRESSION_REGEX`, `set_transformed_expression`) -/
+
+/-- (regenerated constants) the pattern in the source still has the shape the scanner models — a
+    literal sigil, one capture group with a greedy `class+`, optionally the trailer
+    `((?!class+)|$)` — and the sigil is not a class character. -/
+theorem source_regex_has_modelled_shape :
+    (shape = "sigil-class+-trailer" ∨ shape = "sigil-class+") ∧ isTok sigil = false := by decide
+
+/-- (regenerated constants) on ASCII the class of the pattern is exactly the set of characters a
+    valid parameter label is made of (`[A-Za-z0-9_.]`): every declared label is a run of class
+    characters, and `)`, operators, `,`, blanks end it. -/
+theorem class_on_ascii_is_label_chars : ∀ n, n < 128 → isTokN n = labelCharN n := by decide
+
+/-- (regenerated constants) the replacement wraps the label in one pair of quote characters that
+    occur nowhere else in it, and the quote is not a class character. -/
+theorem template_wellformed :
+    templatePrefix = templatePrefix.dropLast ++ [quoteChar] ∧ quoteChar ∉ templatePrefix.dropLast ∧
+    templateSuffix = quoteChar :: templateSuffix.tail ∧ quoteChar ∉ templateSuffix.tail ∧
+    isTok quoteChar = false := by decide
+
+/-- **The engine never backtracks**: a match attempt succeeds iff the sigil is followed by a class
+    character, and then the group is the *maximal* run — with or without the trailer. -/
+theorem matchAt_is_maximal_munch (c : Char) (r : List Char) :
+    matchAt (c :: r) =
+      if c = sigil ∧ headTok r = true then some (r.takeWhile isTok, r.dropWhile isTok) else none :=
+  matchAt_eq c r
+
+example : matchAt [sigil, 'a', '.', '1', ')', 'b'] = some (['a', '.', '1'], [')', 'b']) ∧
+    matchAt [sigil, ')'] = none ∧ matchAt ['a', 'b'] = none := by decide +kernel
+
+/-- every text has exactly one tokenisation in the declarative sense, the one `finditer` finds -/
+theorem tokenisation_exists_unique (s : List Char) :
+    Tokenises s (scan s) ∧ ∀ segs, Tokenises s segs → segs = scan s :=
+  ⟨tokenises_scan s.length s (Nat.le_refl _), fun _ h => tokenises_unique h⟩
+
+/-- **`rewrite_spec`** — every maximal `$`+label token is replaced by the lookup text of exactly
+    that label, every other character is copied; `findall` returns exactly these labels; the
+    segments spell the original text. -/
+theorem rewrite_spec (s : List Char) (segs : List Seg) (h : Tokenises s segs) :
+    rewriteL s = segs.flatMap Seg.out ∧ labelsOf s = segs.filterMap Seg.label? ∧
+    segs.flatMap Seg.src = s := by
+  have := tokenises_unique h
+  subst this
+  exact ⟨rfl, rfl, tokenises_src h⟩
+
+/-- `$b.1*$b` -/
+def demoText : List Char := [sigil, 'b', '.', '1', '*', sigil, 'b']
+
+example : Tokenises demoText [.var ['b', '.', '1'], .plain '*', .var ['b']] :=
+  .var (l := ['b', '.', '1']) (r := ['*', sigil, 'b']) (by decide) (by decide) (by decide)
+    (.plain (by decide) (.var (l := ['b']) (r := []) (by decide) (by decide) (by decide) .nil))
+
+/-- with the template of the source at the time of writing this is
+    `parameters.get('b.1').value*parameters.get('b').value` -/
+example : rewriteL demoText = lookupText ['b', '.', '1'] ++ '*' :: lookupText ['b'] ∧
+    labelsOf demoText = [['b', '.', '1'], ['b']] := by decide +kernel
+
+/-- the rewriting is compositional at every place where the continuation does not start with a
+    class character (in particular in front of every sigil) -/
+theorem rewrite_append (pre y : List Char) (hy : headTok y = false) :
+    rewriteL (pre ++ y) = rewriteL pre ++ rewriteL y ∧ labelsOf (pre ++ y) = labelsOf pre ++ labelsOf y := by
+  unfold rewriteL labelsOf
+  rw [scan_append pre y hy]
+  simp
+
+example : rewriteL ([sigil, 'a'] ++ [')', sigil, 'b']) = rewriteL [sigil, 'a'] ++ rewriteL [')', sigil, 'b'] :=
+  (rewrite_append [sigil, 'a'] [')', sigil, 'b'] (by decide)).1
+
+/-- **`rewrite_no_prefix_capture`** — a label `l₁` that is a proper prefix of the label `l₁ ++ l₂`
+    is never matched inside the longer one: wherever `$l₁l₂` stands (any text in front, anything
+    that does not continue the label behind), exactly the longer label is found and looked up, and
+    the text produced there is not the lookup of the shorter label followed by something. -/
+theorem rewrite_no_prefix_capture (pre l₁ l₂ post : List Char) (h2 : l₂ ≠ [])
+    (ht1 : ∀ c ∈ l₁, isTok c = true) (ht2 : ∀ c ∈ l₂, isTok c = true) (hp : headTok post = false) :
+    rewriteL (pre ++ sigil :: (l₁ ++ l₂ ++ post)) = rewriteL pre ++ lookupText (l₁ ++ l₂) ++ rewriteL post ∧
+    labelsOf (pre ++ sigil :: (l₁ ++ l₂ ++ post)) = labelsOf pre ++ (l₁ ++ l₂) :: labelsOf post ∧
+    ¬ (lookupText l₁ <+: lookupText (l₁ ++ l₂) ++ rewriteL post) := by
+  have hsig : headTok (sigil :: (l₁ ++ l₂ ++ post)) = false := source_regex_has_modelled_shape.2
+  have hne : l₁ ++ l₂ ≠ [] := by simp [h2]
+  have hall : ∀ c ∈ l₁ ++ l₂, isTok c = true := by
+    intro c hc
+    rcases List.mem_append.mp hc with h | h
+    · exact ht1 c h
+    · exact ht2 c h
+  have htok := scan_token hne hall hp
+  obtain ⟨ha1, ha2⟩ := rewrite_append pre _ hsig
+  refine ⟨?_, ?_, ?_⟩
+  · rw [ha1]; unfold rewriteL; rw [htok]; simp [Seg.out]
+  · rw [ha2]; unfold labelsOf; rw [htok]; simp [Seg.label?]
+  · intro hpre
+    obtain ⟨_, _, hs, _, hq⟩ := template_wellformed
+    unfold lookupText at hpre
+    rw [List.append_assoc, List.append_assoc, List.append_assoc, List.append_assoc,
+      List.prefix_append_right_inj, List.prefix_append_right_inj] at hpre
+    cases l₂ with
+    | nil => exact h2 rfl
+    | cons d l₂ =>
+      rw [hs] at hpre
+      have hd : quoteChar = d := by
+        obtain ⟨t, ht⟩ := hpre
+        simp only [List.cons_append, List.cons.injEq] at ht
+        exact ht.1
+      have := ht2 d List.mem_cons_self
+      rw [← hd, hq] at this
+      cases this
+
+example : labelsOf ([sigil, 'k', '1', '0', '+', sigil, 'k', '1']) = [['k', '1', '0'], ['k', '1']] := by decide +kernel
+
+/-- `$k1 * $k10`: the hypotheses are met by `l₁ = k1`, `l₂ = 0`, nothing behind -/
+example : labelsOf ([sigil, 'k', '1', ' ', '*', ' '] ++ sigil :: (['k', '1'] ++ ['0'] ++ [])) =
+    labelsOf [sigil, 'k', '1', ' ', '*', ' '] ++ (['k', '1'] ++ ['0']) :: labelsOf [] :=
+  (rewrite_no_prefix_capture [sigil, 'k', '1', ' ', '*', ' '] ['k', '1'] ['0'] [] (by decide) (by decide) (by decide)
+    (by decide)).2.1
+
+/-- `sub` with the template is `sub` with the function `label ↦ lookup text` -/
+theorem rewriteL_eq_substL (s : List Char) : rewriteL s = substL lookupText s := by
+  have h : Seg.out = Seg.outWith lookupText := by
+    funext seg
+    cases seg <;> rfl
+  unfold rewriteL substL
+  rw [h]
+
+/-- **`subst_spec`** — substitution by any function of the label (`Parameter.markdown`, as fixed)
+    replaces exactly the tokens of the declarative reading. -/
+theorem subst_spec (f : List Char → List Char) (s : List Char) (segs : List Seg) (h : Tokenises s segs) :
+    substL f s = segs.flatMap (Seg.outWith f) := by
+  have := tokenises_unique h
+  subst this
+  rfl
+
+/-- … and never the beginning of a longer label: at `$l₁l₂` the function is applied to `l₁ ++ l₂`.
+    (Before the fix `Parameter.markdown` used `str.replace("$l₁", …)`, which rewrote `$l₁` inside
+    `$l₁l₂`: for `$b + $b1` it printed the value of `b` twice.) -/
+theorem subst_no_prefix_capture (f : List Char → List Char) (pre l₁ l₂ post : List Char) (h2 : l₂ ≠ [])
+    (ht1 : ∀ c ∈ l₁, isTok c = true) (ht2 : ∀ c ∈ l₂, isTok c = true) (hp : headTok post = false) :
+    substL f (pre ++ sigil :: (l₁ ++ l₂ ++ post)) = substL f pre ++ f (l₁ ++ l₂) ++ substL f post := by
+  have hsig : headTok (sigil :: (l₁ ++ l₂ ++ post)) = false := source_regex_has_modelled_shape.2
+  have hne : l₁ ++ l₂ ≠ [] := by simp [h2]
+  have hall : ∀ c ∈ l₁ ++ l₂, isTok c = true := by
+    intro c hc
+    rcases List.mem_append.mp hc with h | h
+    · exact ht1 c h
+    · exact ht2 c h
+  unfold substL
+  rw [scan_append pre _ hsig, scan_token hne hall hp]
+  simp [Seg.outWith]
+
+/-- the regression witness of the markdown defect: `$b + $b1` with `b ↦ B`, `b1 ↦ X` -/
+example : substL (fun l => if l = ['b'] then ['B'] else ['X']) [sigil, 'b', ' ', '+', ' ', sigil, 'b', '1'] =
+    ['B', ' ', '+', ' ', 'X'] := by decide +kernel
+
+/-- **every declared label can be referenced, nested labels included**: a valid label behind the
+    sigil, followed by the end of the text or anything that is not a class character (`)`, an
+    operator, a blank, a comma), is found and looked up as a whole. -/
+theorem rewrite_valid_label (pre l post : List Char) (hl : ValidLabel l) (hp : headTok post = false) :
+    rewriteL (pre ++ sigil :: (l ++ post)) = rewriteL pre ++ lookupText l ++ rewriteL post ∧
+    labelsOf (pre ++ sigil :: (l ++ post)) = labelsOf pre ++ l :: labelsOf post := by
+  have hall : ∀ c ∈ l, isTok c = true := by
+    intro c hc
+    obtain ⟨h1, h2⟩ := hl.2 c hc
+    unfold isTok
+    rw [class_on_ascii_is_label_chars _ h1]; exact h2
+  have hsig : headTok (sigil :: (l ++ post)) = false := source_regex_has_modelled_shape.2
+  have htok := scan_token hl.1 hall hp
+  obtain ⟨ha1, ha2⟩ := rewrite_append pre _ hsig
+  refine ⟨?_, ?_⟩
+  · rw [ha1]; unfold rewriteL; rw [htok]; simp [Seg.out]
+  · rw [ha2]; unfold labelsOf; rw [htok]; simp [Seg.label?]
+
+example : ValidLabel ['r', 'a', 't', 'e', 's', '.', 'k', '.', '1'] := by
+  refine ⟨by decide, ?_⟩
+  decide
+
+/-- a text without the sigil is left as it is and references nothing -/
+theorem rewrite_without_sigil (s : List Char) (h : sigil ∉ s) : rewriteL s = s ∧ labelsOf s = [] := by
+  induction s with
+  | nil => exact ⟨rfl, rfl⟩
+  | cons c r ih =>
+    have hc : c ≠ sigil := fun e => h (by simp [e])
+    have hr := ih (fun e => h (List.mem_cons_of_mem _ e))
+    have hplain : ¬ (c = sigil ∧ headTok r = true) := fun e => hc e.1
+    unfold rewriteL labelsOf at hr ⊢
+    rw [scan_cons_plain hplain]
+    refine ⟨?_, ?_⟩
+    · simp [Seg.out, hr.1]
+    · rw [List.filterMap_cons]
+      simp only [Seg.label?]
+      exact hr.2
+
+example : sigil ∉ ['1', '+', 'a', '.', 'b'] ∧ rewriteL ['1', '+', 'a', '.', 'b'] = ['1', '+', 'a', '.', 'b'] :=
+  ⟨by decide, (rewrite_without_sigil _ (by decide)).1⟩
+
+/-- **`labels_of_rewrite`** — the labels a transformed expression looks up (the quoted arguments
+    of its `parameters.get('…')`, read back from the produced text) are exactly the tokens the
+    pattern finds in the expression, in order and with multiplicity — provided the expression does
+    not contain the quote character itself. -/
+theorem labels_of_rewrite (s : List Char) (h : quoteChar ∉ s) : quoted (rewriteL s) = labelsOf s := by
+  obtain ⟨hp, hpn, hs, hsn, hq⟩ := template_wellformed
+  have hmem := tokenises_members (tokenises_scan s.length s (Nat.le_refl _))
+  have key : ∀ segs : List Seg, (∀ c, Seg.plain c ∈ segs → c ≠ quoteChar) →
+      (∀ l, Seg.var l ∈ segs → quoteChar ∉ l) →
+      quotedAux quoteChar (segs.flatMap Seg.out) none = segs.filterMap Seg.label? := by
+    intro segs
+    induction segs with
+    | nil => intro _ _; rfl
+    | cons seg rest ih =>
+      intro h1 h2
+      have ihr := ih (fun c hc => h1 c (List.mem_cons_of_mem _ hc)) (fun l hl => h2 l (List.mem_cons_of_mem _ hl))
+      cases seg with
+      | plain c =>
+        have hc := h1 c List.mem_cons_self
+        simp only [List.flatMap_cons, Seg.out, List.cons_append, List.nil_append, quotedAux, hc, if_false,
+          List.filterMap_cons, Seg.label?]
+        exact ihr
+      | var l =>
+        have hl := h2 l List.mem_cons_self
+        simp only [List.flatMap_cons, Seg.out, lookupText, List.filterMap_cons, Seg.label?]
+        rw [hp, hs]
+        simp only [List.append_assoc, List.cons_append, List.nil_append]
+        rw [quotedAux_skip _ _ _ hpn]
+        simp only [quotedAux, if_true]
+        rw [quotedAux_close _ _ _ _ hl, quotedAux_skip _ _ _ hsn, ihr]
+        simp
+  unfold quoted rewriteL labelsOf
+  apply key
+  · intro c hc e
+    exact h (e ▸ hmem.1 c hc)
+  · intro l hl e
+    have := (hmem.2 l hl).2 _ e
+    rw [hq] at this; cases this
+
+example : quoteChar ∉ demoText ∧ quoted (rewriteL demoText) = [['b', '.', '1'], ['b']] := by decide +kernel
+
+/-- the hypothesis is needed: an expression that spells a lookup itself (`parameters.get('c').value`)
+    depends on a parameter the pattern does not find -/
+example : labelsOf (lookupText ['c']) = [] ∧ quoted (rewriteL (lookupText ['c'])) = [['c']] := by decide +kernel
+
+end Rewriting
 
 end Glotaran.C12
